@@ -45,6 +45,7 @@ package tokenV2
 //@   ensures [mandatory-fields] isNilIface(result) ==> token.Get(jwt.JwtIDKey).1 && token.Get(jwt.IssuedAtKey).1 && token.Get(jwt.ExpirationKey).1
 //@        && token.Get(jwt.NotBeforeKey).1 && token.Get(jwt.AudienceKey).1 && token.Get(jwt.IssuerKey).1 && token.Get(jwt.SubjectKey).1
 //@   ensures [jti-is-uuid] isNilIface(result) ==> isNilIface(uuid.Parse(tokenJTI(token)).1)
+//@   ensures [expiry-enforceable] isNilIface(result) ==> token.Expiration().Unix() > 0
 //@   ensures [bounded-lifetime-nbf] isNilIface(result) ==> !token.Expiration().After(token.NotBefore().Add(time.Minute * 1470))
 //@   ensures [bounded-lifetime-iat] isNilIface(result) ==> !token.Expiration().After(token.IssuedAt().Add(time.Minute * 1470))
 //@   ensures [iat-before-nbf] isNilIface(result) ==> !token.IssuedAt().After(token.NotBefore())
